@@ -305,6 +305,8 @@ class TagifRaw(Tagif):
 
     def tagify(self):
         self.calls += 1
+        if self.calls == 1:
+            side_work()
         return build(self.result_spec)
 
 
@@ -314,7 +316,9 @@ def build_jsx(spec):
     from htmltools._jsx import JSXTag
     _, name, props, kids, mode = spec
     kw = {k: build_jsx_value(v) for k, v in props}
-    ch = [build(c) for c in kids]
+    ch = []
+    for c in kids:
+        ch.append(ch[c[1]] if c[0] == "REF" else build(c))     # ["REF", k]: the SAME object as child number k
     if mode == "ctor":
         return JSXTag(name, *ch, **kw)
     t = JSXTag(name, **kw)
